@@ -556,11 +556,71 @@ func checkC09(w *World, r *Report) {
 	r.Rule("C09.R6", "no path publishes two dead letters for one send; a send never runs the receiver on the caller's goroutine", 4)
 	checkSingleDeadLetter(w, r, "C09.R6")
 	checkSchedulerAsync(w, r, "C09.R6")
+	// R8: the event stream calls Log() on every event before it forwards it: a Log that dereferences a *PID field that can
+	// be nil (a sender-less message, a nil target) panics inside the event stream, the event reaches nobody
+	r.Rule("C09.R8", "the Log methods of the events that report undeliverable messages use their *PID fields only through nil-safe methods or after a nil check", 1)
+	{
+		n := 0
+		for _, tn := range []string{"DeadLetterEvent", "EngineRemoteMissingEvent"} {
+			fn := w.Method("actor", tn, "Log")
+			if fn == nil {
+				continue
+			}
+			n++
+			g := w.FGI(fn)
+			ok := true
+			detail := ""
+			for i, in := range g.ins {
+				var recvV ssa.Value
+				var callee *ssa.Function
+				switch x := in.(type) {
+				case *ssa.Call:
+					if cal := x.Call.StaticCallee(); cal != nil && len(x.Call.Args) > 0 && cal.Signature.Recv() != nil {
+						recvV, callee = x.Call.Args[0], cal
+					}
+				case *ssa.FieldAddr:
+					recvV = x.X
+				}
+				if recvV == nil {
+					continue
+				}
+				pt, isPtr := recvV.Type().Underlying().(*types.Pointer)
+				if !isPtr {
+					continue
+				}
+				if nn, _ := pt.Elem().(*types.Named); nn == nil || nn.Obj().Name() != "PID" {
+					continue
+				}
+				if w.nonNilAt(g, i, recvV) {
+					continue
+				}
+				if callee != nil && w.derefsParam(callee, 0, 0, map[string]bool{}) == nil {
+					continue // a nil-safe method (generated getter)
+				}
+				ok = false
+				what := "field access"
+				if callee != nil {
+					what = fname(callee)
+				}
+				detail = w.pathOf(recvV) + " is used through " + what + " at " + w.pos(in.Pos()) + " without a nil check: an event about a message without sender (or with a nil target) panics in the event stream instead of reaching the subscribers"
+			}
+			r.Check(ok, "C09.R8", tn+".Log:nil-safe", tn+".Log tolerates nil Target / Sender", w.fnPos(fn), detail)
+		}
+		if n == 0 {
+			r.OK("C09.R8", "events:Log", "the undeliverable-message events have no Log method (nothing is dereferenced)", "-")
+		}
+	}
 	r.Rule("C09.R7", "the event reaches the subscribers through inbox rings whose element transfers are sound (C14.R2-R5); a stopping actor is unregistered before any user code runs, so a send that finds it gone dead-letters (C10.R6)", 8)
 	importRules(w, r, checkC14, "C14", "C09.R7", func(o *Obligation) bool {
 		return o.Rule == "C14.R2" || o.Rule == "C14.R3" || o.Rule == "C14.R4" || o.Rule == "C14.R5"
 	})
 	importRules(w, r, checkC10, "C10", "C09.R7", func(o *Obligation) bool { return o.Rule == "C10.R6" })
+	// the event stream's and the subscribers' inboxes wake up for every accepted event (C03.R1-R3, R7); an inbound
+	// remote message keeps its own sender up to the dead letter (C15.R7)
+	importRules(w, r, checkC03, "C03", "C09.R7", func(o *Obligation) bool {
+		return o.Rule == "C03.R1" || o.Rule == "C03.R2" || o.Rule == "C03.R3" || o.Rule == "C03.R7"
+	})
+	importRules(w, r, checkC15, "C15", "C09.R7", func(o *Obligation) bool { return o.Rule == "C15.R7" })
 	if w.mayDo(es, EvCall("BroadcastEvent", a.eBroadcast), 0) {
 		r.Fail("C09.R5", "eventStream.Receive->BroadcastEvent", "forwarding an event can never synchronously publish another event", w.fnPos(es),
 			"call path eventStream.Receive -> Context.Forward -> SendWithSender -> send -> SendLocal[registry miss] -> BroadcastEvent: a subscriber that stopped without unsubscribing turns every event into a dead letter, which is itself an event")
@@ -868,10 +928,44 @@ func checkC10(w *World, r *Report) {
 	// R7: a process that was unregistered never comes back: it is not restarted after the budget
 	// was exhausted and its inbox is not reopened after cleanup (it would run cleanup again and
 	// remove the entry of the actor that took over the id)
-	r.Rule("C10.R7", "after the stop function ran, the process is neither restarted nor is its inbox reopened (C06.R1, typestate)", 2)
+	r.Rule("C10.R7", "after the stop function ran, the process is neither restarted nor is its inbox reopened, and its worker stops taking batches (C06.R1, C04.R4, typestate)", 3)
 	importRules(w, r, checkC06, "C06", "C10.R7", func(o *Obligation) bool { return o.Rule == "C06.R1" && strings.Contains(o.Key, "exhausted-edge") })
+	// (nor does its worker keep taking batches: a second pill would run the stop function again and unregister a successor)
+	importRules(w, r, checkC04, "C04", "C10.R7", func(o *Obligation) bool { return strings.Contains(o.Key, "status-before-every-batch") })
 	if pr := w.findProcRoles(); !pr.fail(r, "C10.R7") && pr.lta != nil {
 		pr.lta.export(r, "C10.R7", []string{"inbox-started-after-cleanup", "inbox-reopened-by-worker"}, "the inbox of a process that ran its stop function is never started again")
+	}
+	// R8: the registry is the only authority on duplicates. ActorDuplicateIdEvent is published by Registry.add alone,
+	// and every spawn entry point reaches Registry.add on all its paths (a shortcut that answers from some other
+	// table refuses ids that are free again, or accepts ids that are taken).
+	r.Rule("C10.R8", "only Registry.add publishes ActorDuplicateIdEvent; Spawn, SpawnFunc, SpawnProc and SpawnChild reach Registry.add on every path", 3)
+	{
+		evDup := w.evBroadcast("actor", "ActorDuplicateIdEvent")
+		var others []string
+		for _, fn := range w.Funcs {
+			if !w.isLib(fn) || fn == a.regAdd || rootFn(fn) == a.regAdd {
+				continue
+			}
+			if _, spliced := w.inlSites[fn]; spliced {
+				continue
+			}
+			for _, ci := range w.callsIn(fn, evDup) {
+				others = append(others, fname(fn)+" at "+w.pos(ci.Pos()))
+			}
+		}
+		r.Check(len(others) == 0, "C10.R8", "ActorDuplicateIdEvent:publishers", "only Registry.add publishes ActorDuplicateIdEvent", w.fnPos(a.regAdd),
+			fmt.Sprintf("also published by %v: a duplicate is declared without asking the registry", others))
+		evAdd := EvCall("Registry.add", a.regAdd)
+		for _, sp := range []struct{ typ, name string }{{"Engine", "Spawn"}, {"Engine", "SpawnFunc"}, {"Engine", "SpawnProc"}, {"Context", "SpawnChild"}} {
+			fn := w.Method("actor", sp.typ, sp.name)
+			if fn == nil {
+				r.Unknown("C10.R8", sp.typ+"."+sp.name+":reaches-registry", "the spawn entry point exists", "-", "not found")
+				continue
+			}
+			g := w.FGI(fn)
+			r.Check(g.AfterEntry(w.Nodes(g, evAdd, true)), "C10.R8", sp.typ+"."+sp.name+":reaches-registry", sp.typ+"."+sp.name+" hands the process to Registry.add on every path", w.fnPos(fn),
+				"a path through "+sp.name+" returns without Registry.add: the spawn is decided somewhere else than in the registry")
+		}
 	}
 	// R4
 	{
